@@ -628,6 +628,8 @@ def run_c15(rep, tier, seed):
                                  f"configuration {cfg_summary(cfg)} history {h['classes']}: {detail}",
                                  case={"cfg": cfg, "history": h}, module="loader_history")
     rep.part("histories", histories=n, depth=depth, classes=len(CLASS_CALLS))
+    if tier == "thorough":
+        apalache_inductive(rep)
     finish_rule(rep, "TLC enumerates every history of load() call classes up to the depth bound (LoaderMachine.tla, invariant Attribution) and states which call each group must reflect; each history is instantiated with concrete calls on seeded outputs and driven through ONE real RamsesDataset, compared after every call with the specification's Fresh(call) rows")
 
 
@@ -784,3 +786,37 @@ def run_c14(rep, tier, seed):
     rep.part("sink", scenarios=len(jobs), mismatches=nm)
     rep.sample({"sink_scenario": {"ndim": scs[0]["ndim"], "columns": [(c["name"], c["cell"]) for c in scs[0]["exp"]["cols"]]}}, limit=5)
     finish_rule(rep, "particle tables: descriptors mixing d/i/b columns in several orders, particle counts per cpu incl. 0, header records of several lengths, restricted/sorted loads, compared column by column with the specification's PartRows (tokens encode file, particle and column); sink CSV scenarios enumerated by Sink.tla (column sets, unit-line dialects, 1-3 sinks, empty and missing file) compared with Sink!Expected")
+
+
+def apalache_inductive(rep):
+    r"""stretch: Attribution /\ TypeOK is an inductive invariant of LoaderMachine (Apalache, symbolic: Init => Inv, Inv /\ Next => Inv')"""
+    import subprocess
+    wd = os.path.join(common.WORK, "apalache")
+    os.makedirs(wd, exist_ok=True)
+    s = open(os.path.join(common.TLA, "LoaderMachine.tla")).read()
+    s = s.replace("CONSTANTS Depth, HasPart", "CONSTANTS\n  \\* @type: Int;\n  Depth,\n  \\* @type: Bool;\n  HasPart")
+    a = s.index("VARIABLES src,")
+    b = s.index("vars ==")
+    s = s[:a] + "VARIABLES\n  \\* @type: Str -> Int;\n  src,\n  \\* @type: Str -> Int;\n  counted,\n  \\* @type: Seq(Str);\n  hist\n" + s[b:]
+    s = s.replace("EXTENDS Integers, Sequences, FiniteSets, TLC, Json", "EXTENDS Integers, Sequences, FiniteSets, Apalache")
+    s = "\n".join(l for l in s.splitlines() if not l.startswith("Emit =="))
+    s = s.replace("====", """CInit == Depth = 3 /\\ HasPart = TRUE
+TypeOK == /\\ DOMAIN src = Groups /\\ DOMAIN counted = {"ncells", "nparticles"} /\\ Len(hist) <= Depth
+          /\\ \\A g \\in Groups : src[g] >= 0 /\\ src[g] <= Len(hist)
+          /\\ \\A i \\in DOMAIN hist : hist[i] \\in Classes
+IndInv == TypeOK /\\ Attribution
+IndInit == hist = Gen(3) /\\ src = Gen(2) /\\ counted = Gen(2) /\\ IndInv
+====""")
+    with open(os.path.join(wd, "LoaderMachine.tla"), "w") as f:
+        f.write(s)
+    out = {}
+    for label, args in (("init_implies_inv", ["--init=Init", "--inv=IndInv", "--length=0"]), ("inv_is_inductive", ["--init=IndInit", "--inv=IndInv", "--length=1"])):
+        try:
+            p = subprocess.run(["apalache-mc", "check", "--cinit=CInit", "--no-deadlock", f"--out-dir={wd}/out"] + args + ["LoaderMachine.tla"], cwd=wd, capture_output=True, text=True, timeout=600)
+            out[label] = "EXITCODE: OK" in p.stdout
+            if not out[label]:
+                out[label + "_tail"] = p.stdout[-400:]
+        except Exception as e:      # the stretch goal must never break the check
+            out[label] = f"not run: {type(e).__name__}"
+    rep.part("apalache-inductive-invariant", **out)
+    shutil.rmtree(wd, ignore_errors=True)
